@@ -157,6 +157,12 @@ def path_conditions(fn, target, start_block=None, limit=4000):
                     continue            # this side contradicts what the path already decided (join of a logical expression)
                 core, neg = X.strip_bool(B.cond)
                 extra = [c for c in implied_atoms(B.cond, side, facts) if c[0].id != core.id]
+                # a boolean temporary (`const bool is_remote = a != b; if(is_remote)`) stands for its initialiser
+                if core.k == "DeclRefExpr" and core.d.get("sc") == "local":
+                    init = resolve_local(fn, core)
+                    if init is not core and init.k in ("BinaryOperator", "UnaryOperator", "CallExpr"):
+                        c2, n2 = X.strip_bool(init)
+                        extra = extra + [(c2, side ^ neg ^ n2)] + [c for c in implied_atoms(init, side ^ neg, facts) if c[0].id != c2.id]
                 rec(s, conds + [(core, side ^ neg)] + extra, visited | {s})
             else:
                 rec(s, conds, visited | {s})
@@ -279,3 +285,57 @@ def control_dependences(fn, target):
             core, neg = X.strip_bool(B.cond)
             out.append((core, B))
     return out
+
+
+def owner_closure(P, names):
+    """A who-may table names the functions that own some state.  A *static* helper all of whose callers already belong to
+    the set acts on their behalf (it is what an 'extract function' refactoring produces): returns {helper: a caller}."""
+    owners = {n: n for n in names}
+    changed = True
+    while changed:
+        changed = False
+        for f in P.all_functions():
+            if f.name in owners or not f.static:
+                continue
+            cs = [c.fn.name for c in P.callers(f.name)]
+            if cs and all(c in owners for c in cs):
+                owners[f.name] = owners[cs[0]]
+                changed = True
+    return owners
+
+
+def calls_via(P, f, target, cg=None):
+    """Call sites in f that are calls of `target` or of a static function from which `target` is reachable."""
+    cg = cg or call_graph(P)
+    out = []
+    for c in f.calls():
+        if not c.callee:
+            continue
+        if c.callee == target:
+            out.append(c)
+            continue
+        g = P.fn_opt(c.callee)
+        if g is not None and g.static and target in reachable_functions(P, [c.callee], cg):
+            out.append(c)
+    return out
+
+
+def functions_with(P, pred):
+    return [f for f in P.all_functions() if pred(f)]
+
+
+def resolve_local(fn, n, depth=0):
+    """See through a local temporary: if n is a reference to a local variable whose ONLY definition is the initialiser of
+    its declaration (never assigned, incremented or address-taken), return that initialiser (recursively).  Otherwise n."""
+    m = X.strip(n)
+    if m is None or depth > 6 or m.k != "DeclRefExpr" or m.d.get("sc") != "local":
+        return m
+    decl = None
+    for v in fn.walk():
+        if v.k == "VarDecl" and v.did == m.did:
+            decl = v
+        elif v.k == "DeclRefExpr" and v.did == m.did and X.is_write_target(v):
+            return m
+    if decl is None or not decl.children:
+        return m
+    return resolve_local(fn, decl.children[0], depth + 1)
